@@ -25,7 +25,7 @@ ChainOpts == IF ChainMode = "none" THEN {NoChain}
                        g \in {0, 1, 2}, e \in {1, 2}, p \in {0, 1}} \cup
                   {[on |-> TRUE, goto |-> 0, e |-> 2, tag |-> 9, prop |-> 0, double |-> TRUE, always |-> FALSE, cnd |-> 1]}
 AnyT == IF ChainMode = "none" THEN T ELSE {0 - 1, 2}
-Init == /\ \E tr \in [1..M -> [1..N -> T]], an \in [1..M -> AnyT], c1 \in ChainOpts, c2 \in ChainOpts, h2 \in BOOLEAN :
+Init == /\ \E tr \in [1..M -> [1..N -> T]], an \in [1..M -> AnyT], c1 \in ChainOpts, c2 \in ChainOpts, h2 \in (IF ChainMode = "few" THEN {FALSE} ELSE BOOLEAN) :
              cfg = [n |-> N, m |-> M, trans |-> tr, any |-> an,
                     cond |-> <<3, 1>>, enter |-> <<3, 1>>, exit |-> <<1, 3>>,
                     on_enter |-> <<TRUE, TRUE>>, on_exit |-> <<TRUE, TRUE>>,
